@@ -55,20 +55,25 @@ fn finalize(productions: Vec<Production>) -> Result<Vec<Pr>> {
 }
 
 fn variable_names(productions: &[Production]) -> Vec<String> {
+    // Collects the non-terminals of the alternations including those in nested groups,
+    // repetitions and optionals.
+    fn alternations_vars(alts: &Alternations, res: &mut Vec<String>) {
+        for a in &alts.0 {
+            for f in &a.0 {
+                match f {
+                    Factor::NonTerminal(n, ..) => res.push(n.clone()),
+                    Factor::Group(alts) | Factor::Repeat(alts) | Factor::Optional(alts) => {
+                        alternations_vars(alts, res)
+                    }
+                    _ => (),
+                }
+            }
+        }
+    }
     let mut productions_vars = productions.iter().fold(vec![], |mut res, r| {
         let variable = &r.lhs;
         res.push(variable.clone());
-        let mut alternation_vars = r.rhs.0.iter().fold(vec![], |mut res, a| {
-            let mut factors_vars = a.0.iter().fold(vec![], |mut res, f| {
-                if let Factor::NonTerminal(n, ..) = f {
-                    res.push(n.clone());
-                }
-                res
-            });
-            res.append(&mut factors_vars);
-            res
-        });
-        res.append(&mut alternation_vars);
+        alternations_vars(&r.rhs, &mut res);
         res
     });
     productions_vars.sort();
